@@ -171,7 +171,10 @@ Definition tok_action (a : caction) : list N :=
   | AOnClose => [2; 4]
   | ACloseConn => [3]
   | AReturn d e => 4 :: d :: tok_errclass e
-  | _ => []
+  | AArmHold ns => [5; 1; ns]
+  | AArmKA ns => [5; 2; ns]
+  | AStopHold => [5; 3]
+  | AStopKA => [5; 4]
   end.
 
 Fixpoint take_notifs (k : nat) (ints : list N) (bs : list bytes) : list (option notif) * list N * list bytes :=
@@ -592,6 +595,7 @@ Definition oracle (op : N) (ints : list N) (bs : list bytes) (out : list N) : li
                                  (script_list (S (length ints)) ints)) out
   | 128 => oracle_unfe (oerr_of ints) out
   | 129 => oracle_errors (nthB bs 0) (script_of ints) out
+  | 130 => oracle_events (nthB bs 0) (script_of ints) out
   | 161 => (* C08/C03: whatever the segmentation, the reader hands over exactly what the
               length fields dictate for the whole stream (reference: the unchunked parse) *)
       let evs := read_stream (nthB bs 0) (negb (nthN ints 0 =? 0)) in
